@@ -119,6 +119,22 @@ Theorem C14_stale_handle_pinned_refuted : exists s k i h, wf s /\ snd (cache_rem
 Proof. exact stale_commit_v1_refuted. Qed.
 Print Assumptions C14_stale_handle_pinned_refuted.
 
+(* a removal racing with commits through a handle resolved before it (any number of commits, anywhere in the schedule):
+   the flag is set before the refs go, so the ref is gone at the end and nothing is acknowledged after the flag *)
+Theorem C14_remove_vs_inflight_commits before between after s :
+  (forall e, In e (before ++ between ++ after) -> e = RCommit) ->
+  let l := before ++ RSetRemoved :: between ++ RDelRef :: after in
+  r_ref (rrun l s) = false /\ r_removed (rrun l s) = true /\ r_acks (rrun l s) = r_acks (rrun before s).
+Proof. exact (remove_vs_commits before between after s). Qed.
+Print Assumptions C14_remove_vs_inflight_commits.
+
+(* with the two statements in the other order a commit in flight writes the removed entity back *)
+Theorem C14_remove_order_matters_refuted :
+  exists between, (forall e, In e between -> e = RCommit) /\
+    r_ref (rrun (RDelRef :: between ++ [RSetRemoved]) {| r_ref := true; r_removed := false; r_acks := 0 |}) = true.
+Proof. exact remove_vs_commits_other_order_refuted. Qed.
+Print Assumptions C14_remove_order_matters_refuted.
+
 (* the hypotheses are satisfiable together *)
 Example C14_hyps_wf : wf s_demo.
 Proof. exact s_demo_wf. Qed.
